@@ -754,8 +754,12 @@ def xcanon(v, py2file):
         return ["y", hx(v)]
     if t is str:
         if py2file:
-            # Python 2 str: xdis hands back text when the bytes happen to be UTF-8
-            return ["y", hx(v.encode("utf-8", "surrogatepass"))]
+            # Python 2 str: xdis hands back text when the bytes happen to be UTF-8 - real UTF-8: text holding a lone
+            # surrogate is no rendering of a Python 2 byte string any more
+            try:
+                return ["y", hx(v.encode("utf-8"))]
+            except UnicodeEncodeError:
+                return ["t", hx(v.encode("utf-8", "surrogatepass"))]
         return ["t", _text_hex(v)]
     if t is tuple:
         return ["T", [xcanon(e, py2file) for e in v]]
